@@ -48,3 +48,6 @@ def run(ctx):
     from . import c11 as _c11g
 
     _c11g.geometry(ctx)  # (tools/wiring.py) normals, Jacobians, integration elements against their definitions for a general triangle of any size
+    from . import c08 as _c08
+
+    _c08.real_on_complex(ctx)  # (tools/wiring.py) the Laplace potentials are real operators: complex densities of every complex dtype are split
